@@ -924,3 +924,305 @@ pub fn pair_strategy(kinds: std::ops::Range<u8>) -> impl proptest::strategy::Str
     ];
     (kinds, prop_oneof![Just(1u16), 2u16..32, 32u16..4096], proptest::collection::vec(op, 1..40)).prop_map(|(kind, buf, ops)| PairCase { kind, buf, ops })
 }
+
+// ------------------------------------------------------------------------------------------------
+// TLS pair leg: client Stream (TLS over duplex, lazy handshake) <-> server Stream (TLS accept over
+// Braid). Both ends are driven concurrently (reader tasks with scripted buffer sizes, writer ops
+// from the script) on a paused-clock runtime; the decrypted byte streams are compared with the
+// reference FIFO, and end-of-stream must follow a shutdown (close_notify).
+
+#[derive(Clone, Debug, Serialize, Deserialize, PartialEq)]
+pub struct TlsPairCase {
+    pub buf: u16,
+    pub ops: Vec<PairOp>,
+    /// read buffer sizes cycled through by the reader of each end (0 is replaced by 1)
+    pub caps: Vec<u16>,
+}
+
+pub struct TlsPairEngine;
+
+impl Engine for TlsPairEngine {
+    type Case = TlsPairCase;
+    fn name(&self) -> &'static str {
+        "iomodel-tlspair"
+    }
+    fn run_case(&self, c: &TlsPairCase) -> CaseReport {
+        use crate::engines::tlswire::{client_config, install_provider, server_config};
+        use hyperdriver::stream::duplex::DuplexStream;
+        use hyperdriver::stream::Braid;
+        use tokio::io::{AsyncReadExt, AsyncWriteExt};
+        install_provider();
+        let mut rep = CaseReport::default();
+        let name = "tls-duplex-stream";
+        let rt = tokio::runtime::Builder::new_current_thread().enable_time().start_paused(true).build().unwrap();
+        let c = c.clone();
+        let nops = c.ops.len() as u64;
+        #[derive(Default)]
+        struct Got {
+            data: Vec<u8>,
+            eof: bool,
+            err: Option<String>,
+        }
+        let out: Vec<(String, String)> = rt.block_on(async move {
+            let mut v: Vec<(String, String)> = vec![];
+            let (da, db) = DuplexStream::new((c.buf as usize).max(1));
+            let raw = std::env::var_os("VERIF_TLSPAIR_RAW").is_some();
+            let (a, b): (DynIo, DynIo) = if raw {
+                // reference experiment: plain tokio-rustls over tokio's duplex, no hyperdriver wrapper
+                let (ta, tb) = tokio::io::duplex((c.buf as usize).max(1));
+                let sname = rustls::pki_types::ServerName::try_from("example.com").unwrap();
+                let connect = tokio_rustls::TlsConnector::from(Arc::new(client_config(0))).connect(sname, ta);
+                let accept = tokio_rustls::TlsAcceptor::from(Arc::new(server_config(0, 0, Default::default()))).accept(tb);
+                drop((da, db));
+                match tokio::time::timeout(std::time::Duration::from_secs(30), async { tokio::join!(connect, accept) }).await {
+                    Ok((Ok(ca), Ok(sb))) => (Box::pin(ca), Box::pin(sb)),
+                    other => {
+                        v.push((format!("C18/{name}/reference-handshake-stalls"), format!("plain tokio-rustls over a {}-byte pipe: {}", c.buf, if other.is_err() { "no progress for 30 virtual seconds" } else { "handshake error" })));
+                        return v;
+                    }
+                }
+            } else {
+                let a: hyperdriver::client::conn::Stream = da.into();
+                let a = a.tls("example.com", Arc::new(client_config(0)));
+                let accept = tokio_rustls::TlsAcceptor::from(Arc::new(server_config(0, 0, Default::default()))).accept(Braid::from(db));
+                let b: hyperdriver::server::conn::Stream = hyperdriver::server::conn::tls::TlsStream::new(accept).into();
+                (Box::pin(a), Box::pin(b))
+            };
+            let caps: Vec<usize> = if c.caps.is_empty() { vec![4096] } else { c.caps.iter().map(|x| (*x as usize).max(1)).collect() };
+            // Both ends are polled from this one task (one waker): a lazily-handshaking stream shared
+            // between a reading and a writing task would depend on which task polled it last.
+            struct End<S> {
+                s: S,
+                got: Got,
+                caps: Vec<usize>,
+                ci: usize,
+            }
+            fn pump<S: AsyncRead + Unpin>(e: &mut End<S>, cx: &mut Context<'_>) {
+                while !e.got.eof && e.got.err.is_none() {
+                    let mut buf = vec![0u8; e.caps[e.ci % e.caps.len()]];
+                    let mut rb = ReadBuf::new(&mut buf);
+                    match Pin::new(&mut e.s).poll_read(cx, &mut rb) {
+                        Poll::Ready(Ok(())) => {
+                            e.ci += 1;
+                            if rb.filled().is_empty() {
+                                e.got.eof = true;
+                            } else {
+                                e.got.data.extend_from_slice(rb.filled());
+                            }
+                        }
+                        Poll::Ready(Err(err)) => e.got.err = Some(err.to_string()),
+                        Poll::Pending => break,
+                    }
+                }
+            }
+            // end 0 = client (reads direction 1), end 1 = server (reads direction 0)
+            let mut ea = End { s: a, got: Got::default(), caps: caps.iter().rev().cloned().collect(), ci: 0 };
+            let mut eb = End { s: b, got: Got::default(), caps: caps.clone(), ci: 0 };
+            let mut sent: [Vec<u8>; 2] = [vec![], vec![]];
+            let mut shut = [false, false];
+            let mut idx = 0usize;
+            let mut flushed = [false, false];
+            let mut failure: Option<(String, String)> = None;
+            let mut aborted: Option<usize> = None;
+            let ops = c.ops.clone();
+            let mut pending_data: Option<Vec<u8>> = None;
+            let fut = std::future::poll_fn(|cx| {
+                loop {
+                    pump(&mut ea, cx);
+                    pump(&mut eb, cx);
+                    if idx < ops.len() {
+                        let step = idx;
+                        match &ops[idx] {
+                            PairOp::Write { from, len } => {
+                                let dir = *from as usize;
+                                if shut[dir] || *len == 0 {
+                                    idx += 1;
+                                    continue;
+                                }
+                                let data = pending_data.get_or_insert_with(|| {
+                                    let start = sent[dir].len();
+                                    (start..start + *len as usize).map(|i| wbyte(i + dir * 17)).collect()
+                                });
+                                let r = if dir == 0 { Pin::new(&mut ea.s).poll_write(cx, data) } else { Pin::new(&mut eb.s).poll_write(cx, data) };
+                                match r {
+                                    Poll::Ready(Ok(n)) if n <= data.len() => {
+                                        sent[dir].extend_from_slice(&data[..n]);
+                                        pending_data = None;
+                                        idx += 1;
+                                    }
+                                    Poll::Ready(Ok(n)) => {
+                                        failure = Some((format!("C18/{name}/write-reports-more-than-given"), format!("step {step}: {n} of {}", data.len())));
+                                        return Poll::Ready(());
+                                    }
+                                    Poll::Ready(Err(e)) => {
+                                        failure = Some((format!("C18/{name}/write-failed-on-healthy-pair"), format!("step {step}: {e}")));
+                                        return Poll::Ready(());
+                                    }
+                                    Poll::Pending => return Poll::Pending,
+                                }
+                            }
+                            PairOp::Read { .. } => idx += 1,
+                            PairOp::Flush { at } => {
+                                let r = if *at { Pin::new(&mut eb.s).poll_flush(cx) } else { Pin::new(&mut ea.s).poll_flush(cx) };
+                                match r {
+                                    Poll::Ready(Ok(())) => idx += 1,
+                                    Poll::Ready(Err(e)) => {
+                                        if shut[*at as usize] {
+                                            idx += 1;
+                                        } else {
+                                            failure = Some((format!("C18/{name}/flush-failed-on-healthy-pair"), format!("step {step}: {e}")));
+                                            return Poll::Ready(());
+                                        }
+                                    }
+                                    Poll::Pending => return Poll::Pending,
+                                }
+                            }
+                            PairOp::Shutdown { at } => {
+                                let dir = *at as usize;
+                                if shut[dir] {
+                                    idx += 1;
+                                    continue;
+                                }
+                                let r = if *at { Pin::new(&mut eb.s).poll_shutdown(cx) } else { Pin::new(&mut ea.s).poll_shutdown(cx) };
+                                match r {
+                                    Poll::Ready(Ok(())) => {
+                                        shut[dir] = true;
+                                        idx += 1;
+                                        // A shutdown by an end that has neither written nor received anything
+                                        // may precede the end of its (lazy) handshake: no TLS session exists
+                                        // that could be half-closed, the connection is simply given up. From
+                                        // here on only "the peer learns about it" and "nothing invented" hold.
+                                        let me = if dir == 0 { &ea.got } else { &eb.got };
+                                        if sent[dir].is_empty() && me.data.is_empty() {
+                                            aborted = Some(dir);
+                                            idx = ops.len();
+                                        }
+                                    }
+                                    Poll::Ready(Err(e)) => {
+                                        failure = Some((format!("C18/{name}/shutdown-failed-on-healthy-pair"), format!("step {step}: {e}")));
+                                        return Poll::Ready(());
+                                    }
+                                    Poll::Pending => return Poll::Pending,
+                                }
+                            }
+                        }
+                        continue;
+                    }
+                    // script finished: flush what was written, then wait for it to arrive
+                    let mut blocked = false;
+                    for d in 0..2 {
+                        if !flushed[d] && !shut[d] {
+                            let r = if d == 0 { Pin::new(&mut ea.s).poll_flush(cx) } else { Pin::new(&mut eb.s).poll_flush(cx) };
+                            match r {
+                                Poll::Ready(_) => flushed[d] = true,
+                                Poll::Pending => blocked = true,
+                            }
+                        }
+                    }
+                    if blocked {
+                        return Poll::Pending;
+                    }
+                    pump(&mut ea, cx);
+                    pump(&mut eb, cx);
+                    if let Some(d) = aborted {
+                        let peer = if d == 0 { &eb.got } else { &ea.got };
+                        return if peer.eof || peer.err.is_some() { Poll::Ready(()) } else { Poll::Pending };
+                    }
+                    let done = |g: &Got, d: usize| g.err.is_some() || (g.data.len() >= sent[d].len() && (!shut[d] || g.eof));
+                    if done(&eb.got, 0) && done(&ea.got, 1) {
+                        return Poll::Ready(());
+                    }
+                    return Poll::Pending;
+                }
+            });
+            let timed_out = tokio::time::timeout(std::time::Duration::from_secs(30), fut).await.is_err();
+            if let Some(f) = failure {
+                v.push(f);
+                return v;
+            }
+            if timed_out && idx < ops.len() {
+                v.push((format!("C18/{name}/operation-never-completes"), format!("step {idx} ({:?}) made no progress for 30 virtual seconds although the peer keeps reading", ops[idx])));
+                return v;
+            }
+            if let Some(d) = aborted {
+                let (peer, dn) = if d == 0 { (&eb.got, "client") } else { (&ea.got, "server") };
+                if !(peer.eof || peer.err.is_some()) {
+                    v.push((format!("C18/{name}/eof-not-propagated"), format!("the {dn} shut its stream down before exchanging any data (shutdown reported success) but its peer sees neither end of stream nor an error")));
+                }
+                for (g, dd) in [(&eb.got, 0usize), (&ea.got, 1usize)] {
+                    if g.data.len() > sent[dd].len() || g.data[..] != sent[dd][..g.data.len()] {
+                        v.push((format!("C18/{name}/bytes-invented"), format!("direction {dd}: received bytes are not a prefix of what was written")));
+                    }
+                }
+                v.push(("class".into(), format!("{}", sent[0].len() + sent[1].len())));
+                v.push(("shut".into(), "9".into()));
+                return v;
+            }
+            for d in 0..2 {
+                let g = if d == 0 { &eb.got } else { &ea.got };
+                let dn = if d == 0 { "client->server" } else { "server->client" };
+                if let Some(e) = &g.err {
+                    v.push((format!("C18/{name}/read-failed-on-healthy-pair"), format!("{dn}: {e} after {} of {} bytes", g.data.len(), sent[d].len())));
+                    continue;
+                }
+                let n = g.data.len().min(sent[d].len());
+                if g.data[..n] != sent[d][..n] {
+                    let at = (0..n).find(|i| g.data[*i] != sent[d][*i]).unwrap_or(0);
+                    v.push((format!("C18/{name}/read-bytes-differ"), format!("{dn}: byte {at} differs from what was written")));
+                } else if g.data.len() > sent[d].len() {
+                    v.push((format!("C18/{name}/bytes-invented"), format!("{dn}: {} bytes arrived, {} were written", g.data.len(), sent[d].len())));
+                } else if g.data.len() < sent[d].len() {
+                    let sig = if g.eof { "early-eof" } else { "bytes-lost" };
+                    v.push((format!("C18/{name}/{sig}"), format!("{dn}: {} of {} written (and flushed) bytes arrived (eof {})", g.data.len(), sent[d].len(), g.eof)));
+                } else if shut[d] && !g.eof {
+                    v.push((format!("C18/{name}/eof-not-propagated"), format!("{dn}: the writer shut down but the reader never sees end of stream")));
+                } else if !shut[d] && g.eof {
+                    v.push((format!("C18/{name}/early-eof"), format!("{dn}: end of stream although the writer did not shut down")));
+                }
+            }
+            v.push(("class".into(), format!("{}", sent[0].len() + sent[1].len())));
+            v.push(("shut".into(), format!("{}", shut[0] as u8 + shut[1] as u8)));
+            v
+        });
+        drop(rt);
+        let mut moved = 0usize;
+        let mut shuts = 0;
+        for (sig, msg) in out {
+            match sig.as_str() {
+                "class" => moved = msg.parse().unwrap_or(0),
+                "shut" => shuts = msg.parse().unwrap_or(0),
+                _ => rep.violate(sig, msg),
+            }
+        }
+        rep.class(name);
+        if shuts == 9 {
+            rep.class("tls-shutdown-before-any-data");
+        } else if shuts > 0 {
+            rep.class("tls-half-close");
+        }
+        if c.buf < 64 {
+            rep.class("tls-over-tiny-pipe");
+        }
+        rep.nontrivial = moved > 0;
+        rep.total_ops = nops;
+        rep
+    }
+}
+
+pub fn tls_pair_strategy() -> impl proptest::strategy::Strategy<Value = TlsPairCase> {
+    use proptest::prelude::*;
+    let op = prop_oneof![
+        6 => (any::<bool>(), prop_oneof![Just(1u16), 2u16..64, 64u16..3000, 3000u16..40000]).prop_map(|(from, len)| PairOp::Write { from, len }),
+        2 => (any::<bool>(), Just(1u16)).prop_map(|(at, cap)| PairOp::Read { at, cap }),
+        2 => any::<bool>().prop_map(|at| PairOp::Flush { at }),
+        1 => any::<bool>().prop_map(|at| PairOp::Shutdown { at }),
+    ];
+    (
+        // below 6 bytes (a TLS record header is 5) the TLS stack itself stalls over an in-process pipe,
+        // with or without hyperdriver's wrappers (VERIF_TLSPAIR_RAW=1 runs plain tokio-rustls)
+        prop_oneof![Just(16u16), 16u16..64, 64u16..4096, Just(65535u16)],
+        proptest::collection::vec(op, 1..24),
+        proptest::collection::vec(prop_oneof![Just(1u16), 2u16..64, 64u16..20000], 1..4),
+    )
+        .prop_map(|(buf, ops, caps)| TlsPairCase { buf, ops, caps })
+}
